@@ -1,5 +1,7 @@
 import HpxVerif.Model.C2V
 
+import HpxVerif.Lemmas.C2VReal
+
 /-!
 # C16 — cell-size helper bounds really are bounds
 
@@ -85,5 +87,75 @@ theorem c2v_depth0 {α : Type} [Num α] (dbg : Bool) (lon lat radius : α) :
     largestC2V dbg 0 lon lat = some ((Num.halfPi : α) - Num.transitionLat) ∧
     largestC2VWithRadius dbg 0 lon lat radius = some ((Num.halfPi : α) - Num.transitionLat) := by
   constructor <;> simp [largestC2V, largestC2VWithRadius]
+
+/-! ## the envelopes over the reals: region choice, what the `_with_radius` variants bound, and what they do not -/
+
+open Hpx.C2VReal in
+/-- **`c2v_region_choice`** (ℝ, release profile): which envelope `largest_center_to_vertex_distance` uses: depth 0 gives
+    `π/2 − TRANSITION_LATITUDE`; depth > 29 panics; polar caps: `slope_npc·|π/4 − lon % (π/2)| + intercept_npc`;
+    `LAT_OF_SQUARE_CELL ≤ |lat| < TRANSITION_LATITUDE`: the line in `|lat|`; below: the parabola in `lat²` -/
+theorem c2v_region_choice (depth : Nat) (lon lat : ℝ) :
+    C2V.largestC2V false depth lon lat =
+      if depth = 0 then some (Real.pi / 2 - tl) else if 29 < depth then none
+      else some (c2v (C2V.Csts.new depth) lon lat) := Hpx.C2VReal.c2v_region_choice depth lon lat
+
+open Hpx.C2VReal in
+/-- the signs of the constants of every depth, over ℝ: the polar slope is `≥ 0`, the parabola opens downwards, the two
+    equatorial envelopes agree at `LAT_OF_SQUARE_CELL`, and — contrary to what the code's comments assume — **the upper
+    equatorial line DEcreases with latitude** (`slope_eqr < 0` at every depth) -/
+theorem c2v_constant_signs (d : Nat) :
+    0 ≤ (C2V.Csts.new d : C2V.Csts ℝ).slopeNpc ∧ (C2V.Csts.new d : C2V.Csts ℝ).coeffX2Eqr < 0 ∧
+    (C2V.Csts.new d : C2V.Csts ℝ).slopeEqr < 0 ∧
+    topEnv (C2V.Csts.new d) lsc = botEnv (C2V.Csts.new d) lsc :=
+  ⟨new_slopeNpc_nonneg d, new_coeffX2Eqr_neg d, new_slopeEqr_neg d, new_continuous_at_lsc d⟩
+
+open Hpx.C2VReal in
+/-- **`c2v_with_radius_is_sup`**, as the code intends it: IF `slope_npc ≥ 0`, `slope_eqr ≥ 0`, `coeff_x2_eqr ≤ 0` then the
+    value with radius dominates the pointwise envelope at every position of the latitude band (equatorial regions) / of
+    the folded-longitude band (polar caps).  (The middle hypothesis is false for the actual constants: next theorems.) -/
+theorem c2v_with_radius_is_sup (c : C2V.Csts ℝ) (h1 : 0 ≤ c.slopeNpc) (h2 : 0 ≤ c.slopeEqr) (h3 : c.coeffX2Eqr ≤ 0)
+    (hcont : topEnv c lsc = botEnv c lsc) (lon lat r lon' lat' : ℝ) (hband : |(|lat'| - |lat|)| ≤ r) :
+    (|lat| + r < tl → c2v c lon' lat' ≤ c2vR c lon lat r) ∧
+    (tl ≤ |lat| + r → tl ≤ |lat'| → fold lon' ≤ fold lon + r → fold lon' ≤ Real.pi / 4 →
+      c2v c lon' lat' ≤ c2vR c lon lat r) := Hpx.C2VReal.c2v_with_radius_is_sup c h1 h2 h3 hcont lon lat r lon' lat' hband
+
+open Hpx.C2VReal in
+/-- what holds **unconditionally for the actual constants** (every depth 1..29): the value with radius dominates the
+    pointwise envelope over the whole latitude band when the band reaches below `LAT_OF_SQUARE_CELL` and stays below the
+    transition latitude, and over the folded-longitude band for polar positions -/
+theorem c2v_with_radius_bounds (depth : Nat) (hd1 : 1 ≤ depth) (hd2 : depth ≤ 29) (lon lat r lon' lat' : ℝ) :
+    (|(|lat'| - |lat|)| ≤ r → |lat| + r < tl → |lat| - r < lsc →
+      ∃ v w, C2V.largestC2VWithRadius false depth lon lat r = some v ∧ C2V.largestC2V false depth lon' lat' = some w ∧ w ≤ v) ∧
+    (tl ≤ |lat| + r → tl ≤ |lat'| → fold lon' ≤ fold lon + r → fold lon' ≤ Real.pi / 4 →
+      ∃ v w, C2V.largestC2VWithRadius false depth lon lat r = some v ∧ C2V.largestC2V false depth lon' lat' = some w ∧ w ≤ v) :=
+  ⟨fun hb hA hB => largestC2VWithRadius_upper_bound_eqr depth hd1 hd2 lon lat r lon' lat' hb hA hB,
+   fun hA hp h1 h2 => largestC2VWithRadius_upper_bound_npc depth hd1 hd2 lon lat r lon' lat' hA hp h1 h2⟩
+
+open Hpx.C2VReal in
+/-- **not a bound of the pointwise envelope in the upper equatorial band** (every depth 1..29, every band lying entirely
+    between `LAT_OF_SQUARE_CELL` and the transition latitude): the value with radius is strictly BELOW the value without
+    radius at the very same position, because the line is evaluated at the top of the band and its slope is negative.
+    (Whether it still bounds the TRUE centre-to-vertex distance there is geometry: measured by the oracle, no violation
+    observed.) -/
+theorem c2v_with_radius_below_pointwise (depth : Nat) (hd1 : 1 ≤ depth) (hd2 : depth ≤ 29) (lon lat r : ℝ)
+    (hr : 0 < r) (hlo : lsc ≤ |lat| - r) (hhi : |lat| + r < tl) :
+    ∃ v w, C2V.largestC2VWithRadius false depth lon lat r = some v ∧ C2V.largestC2V false depth lon lat = some w ∧ v < w :=
+  largestC2VWithRadius_lt_at_centre' depth hd1 hd2 lon lat r hr hlo hhi
+
+open Hpx.C2VReal in
+/-- **finding F12 as a theorem** (every depth 1..29): in a polar cap the value with radius bounds a LONGITUDE band of
+    half-width `r`, not the cone of angular radius `r`: the point `(π/2, π/3)` is at angular distance exactly `cexR ≈ 0.385`
+    from `(π/4, π/3)`, in the same cap, and its pointwise envelope exceeds the value with radius `cexR` at `(π/4, π/3)` -/
+theorem c2v_with_radius_not_a_cone_bound (depth : Nat) (hd1 : 1 ≤ depth) (hd2 : depth ≤ 29) :
+    ∃ v w, C2V.largestC2VWithRadius false depth (Real.pi / 4 : ℝ) (Real.pi / 3) cexR = some v ∧
+      C2V.largestC2V false depth (Real.pi / 2 : ℝ) (Real.pi / 3) = some w ∧ v < w :=
+  largestC2VWithRadius_not_cone_bound' depth hd1 hd2
+
+open Hpx.C2VReal in
+/-- the multi-depth variant agrees with the scalar one depth by depth (half-open range `[from, to)`, depth 0 first) -/
+theorem c2vs_with_radius_agree (f t : Nat) (lon lat r : ℝ) :
+    C2V.largestC2VsWithRadius false f t lon lat r =
+      (depthsOf f t).mapM fun d => C2V.largestC2VWithRadius false d lon lat r :=
+  Hpx.C2VReal.c2vs_with_radius_agree f t lon lat r
 
 end Hpx.C16
